@@ -28,7 +28,7 @@ ASSUMPTIONS = [
 ]
 BUDGET = {"quick": 80, "thorough": 800}
 ROUNDS = {"thorough": 8}
-FLOORS = {"quadratic_form_checks": {"quick": 300, "thorough": 3000}, "quadrature_checks": {"quick": 100, "thorough": 800},
+FLOORS = {"after_tree_change_checks": {"quick": 100, "thorough": 1000}, "batched_heights": {"quick": 30, "thorough": 300}, "quadratic_form_checks": {"quick": 300, "thorough": 3000}, "quadrature_checks": {"quick": 100, "thorough": 800},
           "statistics_checks": {"quick": 250, "thorough": 2500}, "variants": 4}
 
 KINDS = ["gmrf-quadratic", "gmrf-quadratic", "gmrf-integrated", "coalescent-integrated", "skyride-statistics", "skygrid-statistics", "skygrid-statistics"]
@@ -127,6 +127,26 @@ def run_case(case):
                 if abs(got - quad) > 1e-9 * max(1.0, abs(quad)):
                     V.append(tt.viol("C20:gmrf:quadratic-form:" + var, "GMRF() = %.12g but the quadratic form of the published precision matrix gives %.12g (%s, dim %d)" % (got, quad, var, dim), row=r, **detail))
                     break
+        if var.startswith("time-aware") and not V and "tree.heights" in dic:
+            # the tree moves (all internal heights stretched; field and precision untouched): both the density and the published
+            # precision matrix are those of the new tree
+            f = float(rng.uniform(1.2, 3.0))
+            dic["tree.heights"].tensor = dic["tree.heights"].tensor * f
+            val2 = tt.as_np(g(), "C20:not-a-tensor:gmrf", "GMRF()")
+            Q2 = tt.as_np(g.precision_matrix(), "C20:not-a-tensor:precision_matrix", "precision_matrix()")
+            for r in rows:
+                xr = x if r is None else x[r]
+                Qr = Q2 if r is None else Q2[r]
+                tr = float(tau[0]) if r is None else float(tau[r, 0])
+                quad = 0.5 * (dim - 1) * math.log(tr) - 0.5 * float(xr @ Qr @ xr) - 0.5 * (dim - 1) * math.log(2 * math.pi)
+                got = float(val2[0]) if r is None else float(val2[r, 0])
+                C["quadratic_form_checks"] += 1
+                C["after_tree_change_checks"] = C.get("after_tree_change_checks", 0) + 1
+                if abs(got - quad) > 1e-9 * max(1.0, abs(quad)):
+                    V.append(tt.viol("C20:gmrf:quadratic-form-after-tree-change:" + var, "after the tree's heights changed GMRF() = %.12g but the quadratic form of the published precision matrix gives %.12g (%s, dim %d)" % (got, quad, var, dim), row=r, **detail))
+                    break
+            if var.endswith("no-rescale") and not V and dim >= 2 and np.abs(Q2 - Q).max() == 0:
+                V.append(tt.viol("C20:gmrf:precision-matrix-ignores-tree-change:" + var, "the published precision matrix did not change when all internal heights were stretched by %.3g" % f, **detail))
         nontrivial = dim >= 3
     elif kind == "gmrf-integrated":
         C["variants"] = [var]
@@ -211,8 +231,14 @@ def run_case(case):
             tag = "skygrid"
             detail["grid"] = grid
         detail["numbers"] = {"sampling": s, "coalescent": c, "theta": th.tolist()}
-        lp = tt.as_np(dist.log_prob(hs), "C20:not-a-tensor:log_prob")
+        if B and case["seed"] % 2 == 0:
+            # every member of the batch has its own coalescent times (its own interleaving of sampling and coalescent events)
+            cs = [c] + [kg.simulate(rng, s, float(gm.loguniform(rng, 0.1, 10))) for _ in range(B - 1)]
+            hs = torch.tensor([s + cb for cb in cs], dtype=torch.float64)
+            detail["numbers"]["coalescent_rows"] = cs
+            C["batched_heights"] = 1
         try:
+            lp = tt.as_np(dist.log_prob(hs), "C20:not-a-tensor:log_prob")
             ss, cnt = dist.sufficient_statistics(hs)
         except Exception as e:
             from ..worker import _blame
